@@ -353,6 +353,27 @@ def c_option_ok_or(ex, st, key, argv, dest_ty, raw):
                                   "None": lambda ex, st, a: ex.make_enum(dest_ty, "Err", [a[1]])})
 
 
+def c_option_transpose(ex, st, key, argv, dest_ty, raw):
+    """Option<Result<T, E>>::transpose"""
+    o = argv[0]
+    ok_ty = payload_type(dest_ty, "Ok") or "Option<?>"
+
+    def some(ex, st, a):
+        inner = payload(ex, a[0], "Some", 0, "Result<?, ?>")
+        return inner
+    cases = []
+    c_none = ex.variant_is(st, o, "None")
+    inner0 = payload(ex, o, "Some", 0, "Result<?, ?>") if ex.feasible(st, ex.variant_is(st, o, "Some")) else None
+    cases.append(Case(c_none, lambda ex, st, a: ex.make_enum(dest_ty, "Ok", [ex.make_enum(ok_ty, "None")])))
+    if inner0 is not None:
+        c_some = ex.variant_is(st, o, "Some")
+        cases.append(Case(z3.And(c_some, ex.variant_is(st, inner0, "Ok")),
+                          lambda ex, st, a: ex.make_enum(dest_ty, "Ok", [ex.make_enum(ok_ty, "Some", [payload(ex, payload(ex, a[0], "Some", 0, "Result<?, ?>"), "Ok")])])))
+        cases.append(Case(z3.And(c_some, ex.variant_is(st, inner0, "Err")),
+                          lambda ex, st, a: ex.make_enum(dest_ty, "Err", [payload(ex, payload(ex, a[0], "Some", 0, "Result<?, ?>"), "Err")])))
+    return cases
+
+
 def c_saturating_add(ex, st, key, argv, dest_ty, raw):
     def ap(ex, st, a):
         x, y = a[0], a[1]
@@ -373,6 +394,7 @@ def std_contracts():
         (r"^Option::get_or_insert$|^Option::insert$", c_option_get_or_insert),
         (r"^Option::or$", c_option_or),
         (r"^Option::ok_or$", c_option_ok_or),
+        (r"^Option::transpose$", c_option_transpose),
         (r"^(VarInt|StreamId|PushId|SessionId|T) as (From|Into)::(from|into)$", c_newtype_conv),
         (r"^(VarInt|StreamId|PushId|T) as Partial(Ord|Eq)::(lt|le|gt|ge|eq|ne)$", c_newtype_cmp),
         (r"^core::fmt::rt::Argument::new_|^Argument::new_|^Arguments::new|^format$|^core::fmt::rt::Argument", c_opaque),
